@@ -1,5 +1,5 @@
 (* C15: invariance theorems on the bottom-up semantics and on the model. *)
-From RV Require Export Sparql.Proofs Sparql.Variants.
+From RV Require Export Sparql.Tie Sparql.Variants.
 Local Open Scope N_scope.
 
 (* permuting the triple patterns of a BGP: same multiset, in the specification ... *)
@@ -24,6 +24,34 @@ Proof. cbn. apply Permutation_app_comm. Qed.
 Lemma td_union_comm ds g c p1 p2 :
   Permutation (eval_td ds g c (Union p1 p2)) (eval_td ds g c (Union p2 p1)).
 Proof. cbn. apply Permutation_app_comm. Qed.
+
+(* commutativity of Join: in the specification ... *)
+Lemma bu_join_comm_lists A B : all_wf A -> all_wf B -> Permutation (join_lists A B) (join_lists B A).
+Proof.
+  intros WA WB. unfold join_lists. rewrite flat_map_swap.
+  apply Permutation_refl'. apply flat_map_ext_in. intros y Iy. apply flat_map_ext_in. intros x Ix.
+  rewrite (compatible_sym x y (WA _ Ix) (WB _ Iy)).
+  destruct (compatible y x) eqn:C; [|reflexivity]. f_equal.
+  apply merge_comm; auto. now rewrite compatible_sym by auto.
+Qed.
+
+Lemma bu_join_comm ds g l l' a b : shape a = true -> shape b = true ->
+  Permutation (eval_bu ds g (Join l a b)) (eval_bu ds g (Join l' b a)).
+Proof. intros Sa Sb. cbn. apply bu_join_comm_lists; now apply bu_wf. Qed.
+
+(* ... and in the model, wherever both orders lie in the proved fragment (the
+   asymmetric defects F-C04-3/4 are excluded by its side conditions) *)
+Lemma td_join_comm ds (Gn : graphs_nodup ds) pushed l l' a b g c :
+  frag (map fst (ds_named ds)) pushed (Join l a b) = true ->
+  frag (map fst (ds_named ds)) pushed (Join l' b a) = true ->
+  NoDup g -> sol_wf c = true -> dom_in c pushed ->
+  Permutation (eval_td ds g c (Join l a b)) (eval_td ds g c (Join l' b a)).
+Proof.
+  intros F1 F2 Ng Wc Dc.
+  rewrite (pushdown ds Gn _ _ F1 g c Ng Wc Dc), (pushdown ds Gn _ _ F2 g c Ng Wc Dc).
+  apply join_ctx_perm. pose proof (frag_shape _ _ _ F1) as S. cbn in S. apply andb_true_iff in S as [Sa Sb].
+  now apply bu_join_comm.
+Qed.
 
 (* reading of the checker *)
 Lemma group_ok_iff l : group_ok l = true <-> (forall x r, l = x :: r -> forall y, In y r -> obs_eqb x y = true).
